@@ -61,7 +61,7 @@ type redactCase struct {
 
 type redactor struct {
 	tr      *tracer
-	keys    []keyPair            // pool of pre-generated pairs
+	keys    []keyPair // pool of pre-generated pairs
 	next    int
 	live    map[string][]keyPair // position -> keys currently configured there
 	retired []keyPair            // keys that were configured earlier and replaced
